@@ -1140,8 +1140,9 @@ def paired_cursor_rule(chk, cid, prog, fnames, cfgname, floor=4):
                 if not rv:
                     # complex arithmetic: the product goes through a temporary, the row appears in the following call
                     k0 = next((k_ for k_, b_ in enumerate(body) if b_ is st), None)
-                    if k0 is not None and k0 + 1 < len(body):
-                        rv = [y for y in body[k0 + 1].walk() if y.k == 'Ref' and y.a.get('id') in rows]
+                    nxt = [b_ for b_ in body[(k0 or 0) + 1:] if b_.k != 'Empty'][:1] if k0 is not None else []
+                    if nxt:
+                        rv = [y for y in nxt[0].walk() if y.k == 'Ref' and y.a.get('id') in rows]
                 if not rv:
                     continue
                 (ks, offs), p_ = rows[rv[0].a.get('id')]
